@@ -420,7 +420,11 @@ def check_deep(acc, case) -> list[dict]:
             out = fn()
         except RecursionError:
             limited = True
-            vs.append(mk("C16:recursion-limit-on-deep-tree", case, f"{name}() works at any depth", "RecursionError"))
+            # the recorded finding is the recursion limit of the interpreter (render: ~3 frames per level, the others: 1);
+            # a RecursionError on a tree that is far from that limit is something else
+            shallow = case["depth"] < (250 if name == "render" else 900)
+            vs.append(mk("C16:recursion-error-on-shallow-tree" if shallow else "C16:recursion-limit-on-deep-tree", case,
+                         f"{name}() works at any depth", "RecursionError"))
             continue
         if name == "render" and case["shape"] in ("balanced", "attrs") and out != text:
             vs.append(mk("C16:roundtrip-differs", case, text[:80], out[:80]))
